@@ -116,7 +116,8 @@ def canon_index(t):
         while src[0] == "call" and src[1].rsplit("::", 1)[-1] in ("iter", "into_iter", "iter_mut"):
             src = base_iter(src[3][0])
             plain = True
-        if plain:
+        if plain or src[0] in ("param", "field", "payload"):
+            # `X.iter()` and `for x in X` (IntoIterator of a slice / &Vec) both yield the items of X
             return ("item", canon_index(src))
         return ("elem", canon_index(it))
     if t[0] == "call" and len(t) == 5:
@@ -182,14 +183,39 @@ class Logic:
             for bi, val in sites:
                 conds = self.conditions_at(body, env, bi)
                 if val == ("const", "bool", 1):
-                    disj.append(f_and(conds))
+                    f = f_and(conds)
                 elif val == ("const", "bool", 0):
                     continue
                 else:
-                    disj.append(f_and(conds + [self.of_term(val, True)]))
+                    f = f_and(conds + [self.of_term(val, True)])
+                # a `return true` inside a search loop (or reached only by leaving it early): true iff SOME element
+                # satisfies the conditions met on the way
+                for it in self.search_loops_of(body, env, bi):
+                    f = ("exists", nosite(canon_domain(it)), f)
+                disj.append(f)
             return f_or(disj)
         finally:
             self.depth -= 1
+
+    def search_loops_of(self, body, env, block):
+        """iterators of the `for` loops that `block` lies in, or that are left early on the way to it (the block is only
+        reachable through the Some edge of their `next`)"""
+        out = []
+        for h, blk in body.natural_loops().items():
+            for lb in sorted(blk):
+                tt = body.blocks[lb]["term"]
+                if not (tt["k"] == "call" and "fn" in tt and callee_id(tt["fn"]) == "std::iter::Iterator::next"):
+                    continue
+                inside = block in blk
+                if not inside:
+                    for (sb, si, pk, variants) in body.discr_switches():
+                        if sb in blk and pk[0] == tt["dest"]["l"] and not pk[1]:
+                            yes, no = variant_edge(body, sb, "Some")
+                            if yes and body.edge_dominates(yes[0], block):
+                                inside = True
+                if inside:
+                    out.append(self.ev.operand(env, tt["args"][0], (lb, None)))
+        return out
 
     def of_term(self, t, truth=True):
         """formula of a boolean term having value `truth`"""
